@@ -11,7 +11,7 @@ import (
 	"harness/vrt"
 )
 
-var lens = []int{0, 1, 2, 127, 128}
+var lens = []int{0, 1, 128, 127, 2} // the first k are used: nil/empty, one byte, and the first length whose varint needs two bytes come first
 
 // HarnessDecode (C11): Decode of every buffer of length <= maxlen (every byte
 // symbolic) returns, it never panics (the engine's implicit bounds / slice
@@ -87,6 +87,16 @@ func HarnessRoundTrip() {
 		nsec := vrt.U32("nsec")
 		vrt.Assume(sec < 1<<40 && nsec < 1000000000)
 		l.AppendedAt = time.Unix(int64(sec), int64(nsec)).UTC()
+		if vrt.Param("zone", 0) == 1 {
+			// a fixed zone whose offset is symbolic, including offsets that are not whole minutes
+			// (encoded with an extra seconds byte)
+			off := int(int16(vrt.U32("zoneoff")))
+			// time.Time.MarshalBinary itself refuses offsets in the minute -1 (reserved as its UTC marker)
+			vrt.Assume(!(off <= -60 && off > -120))
+			vrt.Assume(l.Index < 128 && l.Term < 128) // varint widths are covered by the other runs
+			l.AppendedAt = l.AppendedAt.In(time.FixedZone("Z", off))
+			vrt.Reach("zoned-time")
+		}
 	}
 	var buf bytes.Buffer
 	var c wal.BinaryCodec
